@@ -1,12 +1,13 @@
-(* The description of bermuda's binary codec that Model/Binary.v was written from: for every
-   _write_* / _read_* function (and the two public entry points) the ordered list of stream events
-   -- constants written, struct formats packed/unpacked, reads, the peek of _read_dict, calls to the
-   other codec functions with the attribute / keyword they are bound to, branch and loop conditions,
-   returns -- in the notation of translate/t_bin.py.  On every run T-bin regenerates the same
-   description from /repo's current source (GenBin.v) and coq/GenProps/C06_bin.v proves
-   [layout_eqb GenBin.layout BinDesc.layout = true] and [consts_eqb GenBin.constants
-   BinDesc.model_constants = true], where [model_constants] are the very constants used by
-   Model/Binary.v.  (Snapshot taken from the verified tree; no proofs here.) *)
+(* The description of bermuda's binary codec that Model/Binary.v was written from, in the notation
+   of translate/t_bin.py: every _write_* / _read_* function (and the two public entry points) is
+   executed symbolically; for each execution PATH the conditions it assumes, the stream events it
+   performs in order -- constants written, struct formats packed/unpacked, reads, the peek of
+   _read_dict, calls to the other codec functions with their symbolic arguments, loops -- and what
+   it returns (results of stream accesses appear as @k, parameters as $i, locals never).  On every
+   run T-bin regenerates the same description from /repo's current source (GenBin.v) and
+   coq/GenProps/C06_bin.v proves [layout_eqb GenBin.layout BinDesc.layout = true] and
+   [consts_eqb GenBin.constants BinDesc.model_constants = true], where [model_constants] are the
+   very constants used by Model/Binary.v.  (Snapshot taken from the verified tree; no proofs.) *)
 From Coq Require Import ZArith List String Bool.
 From Bermuda Require Import Model.Binary.
 Import ListNotations.
@@ -42,267 +43,362 @@ Definition v1_constants_spec : list (string * list Z) := [
 
 Definition layout : list (string * list string) := [
   ("out.triangle_to_binary", [
-    "IF $2 and ((Path($1).expanduser()).suffix) != '.tribc'";
-    "WARN";
-    "ELIF not $2 and ((Path($1).expanduser()).suffix) != '.trib'";
-    "WARN";
-    "ENDIF";
-    "IF $1.startswith('s3:')";
-    "OPAQUE";
-    "ELSE";
-    "CALL _write_binary $0,(Path($1).expanduser()),$2";
-    "ENDIF"]);
+    "PATH COND ($2 and Path($1).expanduser().suffix != '.tribc') ; COND $1.startswith('s3:')";
+    "  WARN";
+    "  OPAQUE";
+    "PATH COND ($2 and Path($1).expanduser().suffix != '.tribc') ; COND not $1.startswith('s3:')";
+    "  WARN";
+    "  @1 CALL _write_binary $0,Path($1).expanduser(),$2";
+    "  RETURN None";
+    "PATH COND not ($2 and Path($1).expanduser().suffix != '.tribc') ; COND ((not $2) and Path($1).expanduser().suffix != '.trib') ; COND $1.startswith('s3:')";
+    "  WARN";
+    "  OPAQUE";
+    "PATH COND not ($2 and Path($1).expanduser().suffix != '.tribc') ; COND ((not $2) and Path($1).expanduser().suffix != '.trib') ; COND not $1.startswith('s3:')";
+    "  WARN";
+    "  @1 CALL _write_binary $0,Path($1).expanduser(),$2";
+    "  RETURN None";
+    "PATH COND not ($2 and Path($1).expanduser().suffix != '.tribc') ; COND not ((not $2) and Path($1).expanduser().suffix != '.trib') ; COND $1.startswith('s3:')";
+    "  OPAQUE";
+    "PATH COND not ($2 and Path($1).expanduser().suffix != '.tribc') ; COND not ((not $2) and Path($1).expanduser().suffix != '.trib') ; COND not $1.startswith('s3:')";
+    "  @1 CALL _write_binary $0,Path($1).expanduser(),$2";
+    "  RETURN None"]);
   ("out._write_binary", [
-    "IF $2";
-    "WITH gzip.open($1, 'wb', compresslevel=5)";
-    "CALL _write_triangle $0,%0";
-    "ENDWITH";
-    "ELSE";
-    "WITH open($1, 'wb')";
-    "CALL _write_triangle $0,%0";
-    "ENDWITH";
-    "ENDIF"]);
+    "PATH COND $2";
+    "  WITH gzip.open($1,'wb',compresslevel=5)";
+    "  @1 CALL _write_triangle $0,with(gzip.open($1,'wb',compresslevel=5))";
+    "  ENDWITH";
+    "  RETURN None";
+    "PATH COND not $2";
+    "  WITH open($1,'wb')";
+    "  @1 CALL _write_triangle $0,with(open($1,'wb'))";
+    "  ENDWITH";
+    "  RETURN None"]);
   ("out._write_triangle", [
-    "WRITE MAGIC";
-    "WRITE VERSION";
-    "CALL _write_string_pool $0";
-    "LOOP for in $0";
-    "IF %1 != %2.metadata";
-    "CALL _write_metadata %2.metadata,%0";
-    "ENDIF";
-    "CALL _write_cell %2,%0";
-    "ENDLOOP"]);
+    "PATH ";
+    "  WRITE MAGIC";
+    "  WRITE VERSION";
+    "  @3 CALL _write_string_pool $0";
+    "  LOOP for in $0";
+    "    PATH COND %0 != elem($0).metadata";
+    "    @4 CALL _write_metadata elem($0).metadata,@3";
+    "    @5 CALL _write_cell elem($0),@3";
+    "    PATH COND not %0 != elem($0).metadata";
+    "    @4 CALL _write_cell elem($0),@3";
+    "  ENDLOOP";
+    "  RETURN None"]);
   ("out._write_string_pool", [
-    "PACK <h len((sorted(%0)))";
-    "LOOP for in enumerate((sorted(%0)))";
-    "CALL _write_string %3";
-    "ENDLOOP";
-    "RETURN (dict())"]);
+    "PATH ";
+    "  PACK <h len(sorted(%0))";
+    "  LOOP for in sorted(%0)";
+    "    @2 CALL _write_string elem(sorted(%0))";
+    "  ENDLOOP";
+    "  RETURN index_table(sorted(%0))"]);
   ("out._write_cell", [
-    "IF isinstance($0, CumulativeCell)";
-    "WRITE CUMULATIVE_CELL";
-    "ELIF isinstance($0, IncrementalCell)";
-    "WRITE INCREMENTAL_CELL";
-    "ELSE";
-    "WRITE CELL";
-    "ENDIF";
-    "CALL _write_date $0.period_start";
-    "CALL _write_date $0.period_end";
-    "CALL _write_date $0.evaluation_date";
-    "CALL _write_dict $0.values,$2";
-    "IF isinstance($0, IncrementalCell)";
-    "CALL _write_date $0.prev_evaluation_date";
-    "ENDIF"]);
+    "PATH COND isinstance($0,CumulativeCell) ; COND isinstance($0,IncrementalCell)";
+    "  WRITE CUMULATIVE_CELL";
+    "  @2 CALL _write_date $0.period_start";
+    "  @3 CALL _write_date $0.period_end";
+    "  @4 CALL _write_date $0.evaluation_date";
+    "  @5 CALL _write_dict $0.values,$2";
+    "  @6 CALL _write_date $0.prev_evaluation_date";
+    "  RETURN None";
+    "PATH COND isinstance($0,CumulativeCell) ; COND not isinstance($0,IncrementalCell)";
+    "  WRITE CUMULATIVE_CELL";
+    "  @2 CALL _write_date $0.period_start";
+    "  @3 CALL _write_date $0.period_end";
+    "  @4 CALL _write_date $0.evaluation_date";
+    "  @5 CALL _write_dict $0.values,$2";
+    "  RETURN None";
+    "PATH COND not isinstance($0,CumulativeCell) ; COND isinstance($0,IncrementalCell) ; COND isinstance($0,IncrementalCell)";
+    "  WRITE INCREMENTAL_CELL";
+    "  @2 CALL _write_date $0.period_start";
+    "  @3 CALL _write_date $0.period_end";
+    "  @4 CALL _write_date $0.evaluation_date";
+    "  @5 CALL _write_dict $0.values,$2";
+    "  @6 CALL _write_date $0.prev_evaluation_date";
+    "  RETURN None";
+    "PATH COND not isinstance($0,CumulativeCell) ; COND isinstance($0,IncrementalCell) ; COND not isinstance($0,IncrementalCell)";
+    "  WRITE INCREMENTAL_CELL";
+    "  @2 CALL _write_date $0.period_start";
+    "  @3 CALL _write_date $0.period_end";
+    "  @4 CALL _write_date $0.evaluation_date";
+    "  @5 CALL _write_dict $0.values,$2";
+    "  RETURN None";
+    "PATH COND not isinstance($0,CumulativeCell) ; COND not isinstance($0,IncrementalCell) ; COND isinstance($0,IncrementalCell)";
+    "  WRITE CELL";
+    "  @2 CALL _write_date $0.period_start";
+    "  @3 CALL _write_date $0.period_end";
+    "  @4 CALL _write_date $0.evaluation_date";
+    "  @5 CALL _write_dict $0.values,$2";
+    "  @6 CALL _write_date $0.prev_evaluation_date";
+    "  RETURN None";
+    "PATH COND not isinstance($0,CumulativeCell) ; COND not isinstance($0,IncrementalCell) ; COND not isinstance($0,IncrementalCell)";
+    "  WRITE CELL";
+    "  @2 CALL _write_date $0.period_start";
+    "  @3 CALL _write_date $0.period_end";
+    "  @4 CALL _write_date $0.evaluation_date";
+    "  @5 CALL _write_dict $0.values,$2";
+    "  RETURN None"]);
   ("out._write_metadata", [
-    "WRITE METADATA";
-    "CALL _write_string $0.risk_basis";
-    "CALL _write_string $0.country";
-    "CALL _write_string $0.currency";
-    "CALL _write_string $0.reinsurance_basis";
-    "CALL _write_string $0.loss_definition";
-    "CALL _write_float $0.per_occurrence_limit";
-    "CALL _write_dict $0.details,$2";
-    "CALL _write_dict $0.loss_details,$2"]);
+    "PATH ";
+    "  WRITE METADATA";
+    "  @2 CALL _write_string $0.risk_basis";
+    "  @3 CALL _write_string $0.country";
+    "  @4 CALL _write_string $0.currency";
+    "  @5 CALL _write_string $0.reinsurance_basis";
+    "  @6 CALL _write_string $0.loss_definition";
+    "  @7 CALL _write_float $0.per_occurrence_limit";
+    "  @8 CALL _write_dict $0.details,$2";
+    "  @9 CALL _write_dict $0.loss_details,$2";
+    "  RETURN None"]);
   ("out._write_string", [
-    "IF $0 is None";
-    "PACK <h -1";
-    "ELSE";
-    "PACK <H len(($0.encode()))";
-    "WRITERAW ($0.encode())";
-    "ENDIF"]);
+    "PATH COND $0 is None";
+    "  PACK <h (-1)";
+    "  RETURN None";
+    "PATH COND not $0 is None";
+    "  PACK <H len($0.encode())";
+    "  WRITERAW $0.encode()";
+    "  RETURN None"]);
   ("out._write_date", [
-    "PACK <hBB $0.year,$0.month,$0.day"]);
+    "PATH ";
+    "  PACK <hBB $0.year,$0.month,$0.day";
+    "  RETURN None"]);
   ("out._write_float", [
-    "IF $0 is None";
-    "PACK <d math.nan";
-    "ELSE";
-    "PACK <d $0";
-    "ENDIF"]);
+    "PATH COND $0 is None";
+    "  PACK <d math.nan";
+    "  RETURN None";
+    "PATH COND not $0 is None";
+    "  PACK <d $0";
+    "  RETURN None"]);
   ("out._write_array", [
-    "IF $0.dtype == 'float64'";
-    "WRITE FLOAT_ARRAY";
-    "ELIF $0.dtype == 'int64'";
-    "WRITE INT_ARRAY";
-    "ELSE";
-    "RAISE ValueError";
-    "ENDIF";
-    "PACK <B (len($0.shape))";
-    "LOOP for in $0.shape";
-    "PACK <L %0";
-    "ENDLOOP";
-    "WRITERAW $0.tobytes()"]);
+    "PATH COND $0.dtype == 'float64'";
+    "  WRITE FLOAT_ARRAY";
+    "  PACK <B len($0.shape)";
+    "  LOOP for in $0.shape";
+    "    PACK <L elem($0.shape)";
+    "  ENDLOOP";
+    "  WRITERAW $0.tobytes()";
+    "  RETURN None";
+    "PATH COND not $0.dtype == 'float64' ; COND $0.dtype == 'int64'";
+    "  WRITE INT_ARRAY";
+    "  PACK <B len($0.shape)";
+    "  LOOP for in $0.shape";
+    "    PACK <L elem($0.shape)";
+    "  ENDLOOP";
+    "  WRITERAW $0.tobytes()";
+    "  RETURN None";
+    "PATH COND not $0.dtype == 'float64' ; COND not $0.dtype == 'int64'";
+    "  RAISE ValueError"]);
   ("out._write_dict", [
-    "LOOP for in $0.items()";
-    "PACK <H $2[%0]";
-    "CALL _write_generic_value %1";
-    "ENDLOOP";
-    "WRITE DICT_END"]);
+    "PATH ";
+    "  LOOP for in $0.items()";
+    "    PACK <H $2[elem($0.items())[0]]";
+    "    @2 CALL _write_generic_value elem($0.items())[1]";
+    "  ENDLOOP";
+    "  WRITE DICT_END";
+    "  RETURN None"]);
   ("out._write_generic_value", [
-    "IF isinstance($0, str)";
-    "WRITE STRING";
-    "CALL _write_string $0";
-    "ELIF isinstance($0, bool)";
-    "WRITE BOOL";
-    "PACK ? $0";
-    "ELIF isinstance($0, (int, np.int64))";
-    "WRITE INT";
-    "PACK <q $0";
-    "ELIF isinstance($0, float)";
-    "WRITE FLOAT";
-    "PACK <d $0";
-    "ELIF isinstance($0, np.ndarray)";
-    "CALL _write_array $0";
-    "ELIF isinstance($0, datetime.date)";
-    "WRITE DATE";
-    "CALL _write_date $0";
-    "ELSE";
-    "WRITE NONE";
-    "ENDIF"]);
+    "PATH COND isinstance($0,str)";
+    "  WRITE STRING";
+    "  @2 CALL _write_string $0";
+    "  RETURN None";
+    "PATH COND not isinstance($0,str) ; COND isinstance($0,bool)";
+    "  WRITE BOOL";
+    "  PACK ? $0";
+    "  RETURN None";
+    "PATH COND not isinstance($0,str) ; COND not isinstance($0,bool) ; COND isinstance($0,(int,np.int64))";
+    "  WRITE INT";
+    "  PACK <q $0";
+    "  RETURN None";
+    "PATH COND not isinstance($0,str) ; COND not isinstance($0,bool) ; COND not isinstance($0,(int,np.int64)) ; COND isinstance($0,float)";
+    "  WRITE FLOAT";
+    "  PACK <d $0";
+    "  RETURN None";
+    "PATH COND not isinstance($0,str) ; COND not isinstance($0,bool) ; COND not isinstance($0,(int,np.int64)) ; COND not isinstance($0,float) ; COND isinstance($0,np.ndarray)";
+    "  @1 CALL _write_array $0";
+    "  RETURN None";
+    "PATH COND not isinstance($0,str) ; COND not isinstance($0,bool) ; COND not isinstance($0,(int,np.int64)) ; COND not isinstance($0,float) ; COND not isinstance($0,np.ndarray) ; COND isinstance($0,datetime.date)";
+    "  WRITE DATE";
+    "  @2 CALL _write_date $0";
+    "  RETURN None";
+    "PATH COND not isinstance($0,str) ; COND not isinstance($0,bool) ; COND not isinstance($0,(int,np.int64)) ; COND not isinstance($0,float) ; COND not isinstance($0,np.ndarray) ; COND not isinstance($0,datetime.date)";
+    "  WRITE NONE";
+    "  RETURN None"]);
   ("in.binary_to_triangle", [
-    "IF $1 is None";
-    "IF ((Path($0).expanduser()).suffix) == '.trib'";
-    "SET $1 False";
-    "ELIF ((Path($0).expanduser()).suffix) == '.tribc'";
-    "SET $1 True";
-    "ELSE";
-    "RAISE ValueError";
-    "ENDIF";
-    "ELIF $1 and ((Path($0).expanduser()).suffix) != '.tribc'";
-    "WARN";
-    "ELIF not $1 and ((Path($0).expanduser()).suffix) != '.trib'";
-    "WARN";
-    "ENDIF";
-    "IF $0.startswith('s3:')";
-    "OPAQUE";
-    "ELSE";
-    "CALL _read_binary (Path($0).expanduser()),$1";
-    "RETURN _read_binary((Path($0).expanduser()), $1)";
-    "ENDIF"]);
+    "PATH COND $1 is None ; COND Path($0).expanduser().suffix == '.trib' ; COND $0.startswith('s3:')";
+    "  OPAQUE";
+    "PATH COND $1 is None ; COND Path($0).expanduser().suffix == '.trib' ; COND not $0.startswith('s3:')";
+    "  @1 CALL _read_binary Path($0).expanduser(),False";
+    "  RETURN @1";
+    "PATH COND $1 is None ; COND not Path($0).expanduser().suffix == '.trib' ; COND Path($0).expanduser().suffix == '.tribc' ; COND $0.startswith('s3:')";
+    "  OPAQUE";
+    "PATH COND $1 is None ; COND not Path($0).expanduser().suffix == '.trib' ; COND Path($0).expanduser().suffix == '.tribc' ; COND not $0.startswith('s3:')";
+    "  @1 CALL _read_binary Path($0).expanduser(),True";
+    "  RETURN @1";
+    "PATH COND $1 is None ; COND not Path($0).expanduser().suffix == '.trib' ; COND not Path($0).expanduser().suffix == '.tribc'";
+    "  RAISE ValueError";
+    "PATH COND not $1 is None ; COND ($1 and Path($0).expanduser().suffix != '.tribc') ; COND $0.startswith('s3:')";
+    "  WARN";
+    "  OPAQUE";
+    "PATH COND not $1 is None ; COND ($1 and Path($0).expanduser().suffix != '.tribc') ; COND not $0.startswith('s3:')";
+    "  WARN";
+    "  @1 CALL _read_binary Path($0).expanduser(),$1";
+    "  RETURN @1";
+    "PATH COND not $1 is None ; COND not ($1 and Path($0).expanduser().suffix != '.tribc') ; COND ((not $1) and Path($0).expanduser().suffix != '.trib') ; COND $0.startswith('s3:')";
+    "  WARN";
+    "  OPAQUE";
+    "PATH COND not $1 is None ; COND not ($1 and Path($0).expanduser().suffix != '.tribc') ; COND ((not $1) and Path($0).expanduser().suffix != '.trib') ; COND not $0.startswith('s3:')";
+    "  WARN";
+    "  @1 CALL _read_binary Path($0).expanduser(),$1";
+    "  RETURN @1";
+    "PATH COND not $1 is None ; COND not ($1 and Path($0).expanduser().suffix != '.tribc') ; COND not ((not $1) and Path($0).expanduser().suffix != '.trib') ; COND $0.startswith('s3:')";
+    "  OPAQUE";
+    "PATH COND not $1 is None ; COND not ($1 and Path($0).expanduser().suffix != '.tribc') ; COND not ((not $1) and Path($0).expanduser().suffix != '.trib') ; COND not $0.startswith('s3:')";
+    "  @1 CALL _read_binary Path($0).expanduser(),$1";
+    "  RETURN @1"]);
   ("in._read_binary", [
-    "IF $1";
-    "WITH gzip.open($0, 'rb', compresslevel=5)";
-    "CALL _read_triangle %0";
-    "RETURN _read_triangle(%0)";
-    "ENDWITH";
-    "ELSE";
-    "WITH open($0, 'rb')";
-    "CALL _read_triangle %0";
-    "RETURN _read_triangle(%0)";
-    "ENDWITH";
-    "ENDIF"]);
+    "PATH COND $1";
+    "  WITH gzip.open($0,'rb',compresslevel=5)";
+    "  @1 CALL _read_triangle with(gzip.open($0,'rb',compresslevel=5))";
+    "  ENDWITH";
+    "  RETURN @1";
+    "PATH COND not $1";
+    "  WITH open($0,'rb')";
+    "  @1 CALL _read_triangle with(open($0,'rb'))";
+    "  ENDWITH";
+    "  RETURN @1"]);
   ("in._read_triangle", [
-    "READ 4";
-    "IF $0.read(4) != MAGIC";
-    "RAISE ValueError";
-    "ENDIF";
-    "READ 1";
-    "IF $0.read(1) != VERSION";
-    "RAISE ValueError";
-    "ENDIF";
-    "CALL _read_string_pool ";
-    "LOOP while True";
-    "READ 1";
-    "IF %2 == METADATA";
-    "CALL _read_metadata %0";
-    "ELIF %2 == CELL or %2 == CUMULATIVE_CELL or %2 == INCREMENTAL_CELL";
-    "CALL _read_cell %2,%1,%0";
-    "ELSE";
-    "BREAK";
-    "ENDIF";
-    "ENDLOOP";
-    "RETURN Triangle(([]))"]);
+    "PATH COND @1 != MAGIC";
+    "  @1 READ 4";
+    "  RAISE ValueError";
+    "PATH COND not @1 != MAGIC ; COND @2 != VERSION";
+    "  @1 READ 4";
+    "  @2 READ 1";
+    "  RAISE ValueError";
+    "PATH COND not @1 != MAGIC ; COND not @2 != VERSION";
+    "  @1 READ 4";
+    "  @2 READ 1";
+    "  @3 CALL _read_string_pool ";
+    "  LOOP while";
+    "    PATH COND True ; COND @4 == METADATA";
+    "    @4 READ 1";
+    "    @5 CALL _read_metadata @3";
+    "    PATH COND True ; COND not @4 == METADATA ; COND (@4 == CELL or @4 == CUMULATIVE_CELL or @4 == INCREMENTAL_CELL)";
+    "    @4 READ 1";
+    "    @5 CALL _read_cell @4,%0,@3";
+    "    PATH COND True ; COND not @4 == METADATA ; COND not (@4 == CELL or @4 == CUMULATIVE_CELL or @4 == INCREMENTAL_CELL)";
+    "    @4 READ 1";
+    "    BREAK";
+    "  ENDLOOP";
+    "  RETURN Triangle(%1)"]);
   ("in._read_string_pool", [
-    "UNPACK <H 2";
-    "LOOP for in range(%0)";
-    "CALL _read_string ";
-    "ENDLOOP";
-    "RETURN [_read_string($0) for %1 in range(%0)]"]);
+    "PATH ";
+    "  @1 UNPACK <H 2";
+    "  LOOP for in range(@1[0])";
+    "    @2 CALL _read_string ";
+    "  ENDLOOP";
+    "  RETURN list[@2 for in range(@1[0])]"]);
   ("in._read_cell", [
-    "IF $1 == CUMULATIVE_CELL";
-    "CALL _read_date ->period_start ";
-    "CALL _read_date ->period_end ";
-    "CALL _read_date ->evaluation_date ";
-    "CALL _read_dict ->values $3";
-    "RETURN CumulativeCell(period_start=_read_date($0), period_end=_read_date($0), evaluation_date=_read_date($0), values=_read_dict($0, $3), metadata=$2)";
-    "ELIF $1 == INCREMENTAL_CELL";
-    "CALL _read_date ->period_start ";
-    "CALL _read_date ->period_end ";
-    "CALL _read_date ->evaluation_date ";
-    "CALL _read_dict ->values $3";
-    "CALL _read_date ->prev_evaluation_date ";
-    "RETURN IncrementalCell(period_start=_read_date($0), period_end=_read_date($0), evaluation_date=_read_date($0), values=_read_dict($0, $3), prev_evaluation_date=_read_date($0), metadata=$2)";
-    "ELSE";
-    "CALL _read_date ->period_start ";
-    "CALL _read_date ->period_end ";
-    "CALL _read_date ->evaluation_date ";
-    "CALL _read_dict ->values $3";
-    "RETURN Cell(period_start=_read_date($0), period_end=_read_date($0), evaluation_date=_read_date($0), values=_read_dict($0, $3), metadata=$2)";
-    "ENDIF"]);
+    "PATH COND $1 == CUMULATIVE_CELL";
+    "  @1 CALL _read_date ";
+    "  @2 CALL _read_date ";
+    "  @3 CALL _read_date ";
+    "  @4 CALL _read_dict $3";
+    "  RETURN CumulativeCell(period_start=@1,period_end=@2,evaluation_date=@3,values=@4,metadata=$2)";
+    "PATH COND not $1 == CUMULATIVE_CELL ; COND $1 == INCREMENTAL_CELL";
+    "  @1 CALL _read_date ";
+    "  @2 CALL _read_date ";
+    "  @3 CALL _read_date ";
+    "  @4 CALL _read_dict $3";
+    "  @5 CALL _read_date ";
+    "  RETURN IncrementalCell(period_start=@1,period_end=@2,evaluation_date=@3,values=@4,prev_evaluation_date=@5,metadata=$2)";
+    "PATH COND not $1 == CUMULATIVE_CELL ; COND not $1 == INCREMENTAL_CELL";
+    "  @1 CALL _read_date ";
+    "  @2 CALL _read_date ";
+    "  @3 CALL _read_date ";
+    "  @4 CALL _read_dict $3";
+    "  RETURN Cell(period_start=@1,period_end=@2,evaluation_date=@3,values=@4,metadata=$2)"]);
   ("in._read_metadata", [
-    "CALL _read_string ->risk_basis ";
-    "CALL _read_string ->country ";
-    "CALL _read_string ->currency ";
-    "CALL _read_string ->reinsurance_basis ";
-    "CALL _read_string ->loss_definition ";
-    "CALL _read_float ->per_occurrence_limit ";
-    "CALL _read_dict ->details $1";
-    "CALL _read_dict ->loss_details $1";
-    "RETURN Metadata(risk_basis=_read_string($0), country=_read_string($0), currency=_read_string($0), reinsurance_basis=_read_string($0), loss_definition=_read_string($0), per_occurrence_limit=_read_float($0), details=_read_dict($0, $1), loss_details=_read_dict($0, $1))"]);
+    "PATH ";
+    "  @1 CALL _read_string ";
+    "  @2 CALL _read_string ";
+    "  @3 CALL _read_string ";
+    "  @4 CALL _read_string ";
+    "  @5 CALL _read_string ";
+    "  @6 CALL _read_float ";
+    "  @7 CALL _read_dict $1";
+    "  @8 CALL _read_dict $1";
+    "  RETURN Metadata(risk_basis=@1,country=@2,currency=@3,reinsurance_basis=@4,loss_definition=@5,per_occurrence_limit=@6,details=@7,loss_details=@8)"]);
   ("in._read_string", [
-    "UNPACK <h 2";
-    "IF %0 == -1";
-    "RETURN None";
-    "ENDIF";
-    "READ %0";
-    "RETURN $0.read(%0).decode('utf-8')"]);
+    "PATH COND @1[0] == (-1)";
+    "  @1 UNPACK <h 2";
+    "  RETURN None";
+    "PATH COND not @1[0] == (-1)";
+    "  @1 UNPACK <h 2";
+    "  @2 READ @1[0]";
+    "  RETURN @2.decode('utf-8')"]);
   ("in._read_date", [
-    "UNPACK <hBB 4";
-    "RETURN datetime.date(%0, %1, %2)"]);
+    "PATH ";
+    "  @1 UNPACK <hBB 4";
+    "  RETURN datetime.date(@1[0],@1[1],@1[2])"]);
   ("in._read_float", [
-    "UNPACK <d 8";
-    "IF math.isnan(%0)";
-    "RETURN None";
-    "ENDIF";
-    "RETURN %0"]);
+    "PATH COND math.isnan(@1[0])";
+    "  @1 UNPACK <d 8";
+    "  RETURN None";
+    "PATH COND not math.isnan(@1[0])";
+    "  @1 UNPACK <d 8";
+    "  RETURN @1[0]"]);
   ("in._read_array", [
-    "UNPACK <B 1";
-    "LOOP for in range(%0)";
-    "UNPACK <L 4";
-    "ENDLOOP";
-    "READ %2 * 8";
-    "RETURN np.frombuffer(%4, $1).reshape(%1)"]);
+    "PATH ";
+    "  @1 UNPACK <B 1";
+    "  LOOP for in range(@1[0])";
+    "    @2 UNPACK <L 4";
+    "  ENDLOOP";
+    "  @3 READ (prod(tuple(list[@2[0] for in range(@1[0])])) * 8)";
+    "  RETURN np.frombuffer(@3,$1).reshape(tuple(list[@2[0] for in range(@1[0])]))"]);
   ("in._read_dict", [
-    "LOOP while $0.peek(1)[:1] != DICT_END";
-    "PEEK 1";
-    "UNPACK <H 2";
-    "CALL _read_generic_value ";
-    "ENDLOOP";
-    "READ 1";
-    "RETURN ({})"]);
+    "PATH ";
+    "  LOOP while";
+    "    PATH COND @1 != DICT_END";
+    "    @1 PEEK 1 [:1]";
+    "    @2 UNPACK <H 2";
+    "    @3 CALL _read_generic_value ";
+    "  ENDLOOP";
+    "  @4 READ 1";
+    "  RETURN %0"]);
   ("in._read_generic_value", [
-    "READ 1";
-    "IF %0 == STRING";
-    "CALL _read_string ";
-    "RETURN _read_string($0)";
-    "ELIF %0 == BOOL";
-    "UNPACK ? 1";
-    "RETURN struct.unpack('?', $0.read(1))[0]";
-    "ELIF %0 == INT";
-    "UNPACK <q 8";
-    "RETURN struct.unpack('<q', $0.read(8))[0]";
-    "ELIF %0 == FLOAT";
-    "UNPACK <d 8";
-    "RETURN struct.unpack('<d', $0.read(8))[0]";
-    "ELIF %0 == INT_ARRAY";
-    "CALL _read_array np.dtype('int64')";
-    "RETURN _read_array($0, np.dtype('int64'))";
-    "ELIF %0 == FLOAT_ARRAY";
-    "CALL _read_array np.dtype('float64')";
-    "RETURN _read_array($0, np.dtype('float64'))";
-    "ELIF %0 == DATE";
-    "CALL _read_date ";
-    "RETURN _read_date($0)";
-    "ELIF %0 == NONE";
-    "RETURN None";
-    "ENDIF"])
+    "PATH COND @1 == STRING";
+    "  @1 READ 1";
+    "  @2 CALL _read_string ";
+    "  RETURN @2";
+    "PATH COND not @1 == STRING ; COND @1 == BOOL";
+    "  @1 READ 1";
+    "  @2 UNPACK ? 1";
+    "  RETURN @2[0]";
+    "PATH COND not @1 == STRING ; COND not @1 == BOOL ; COND @1 == INT";
+    "  @1 READ 1";
+    "  @2 UNPACK <q 8";
+    "  RETURN @2[0]";
+    "PATH COND not @1 == STRING ; COND not @1 == BOOL ; COND not @1 == INT ; COND @1 == FLOAT";
+    "  @1 READ 1";
+    "  @2 UNPACK <d 8";
+    "  RETURN @2[0]";
+    "PATH COND not @1 == STRING ; COND not @1 == BOOL ; COND not @1 == INT ; COND not @1 == FLOAT ; COND @1 == INT_ARRAY";
+    "  @1 READ 1";
+    "  @2 CALL _read_array np.dtype('int64')";
+    "  RETURN @2";
+    "PATH COND not @1 == STRING ; COND not @1 == BOOL ; COND not @1 == INT ; COND not @1 == FLOAT ; COND not @1 == INT_ARRAY ; COND @1 == FLOAT_ARRAY";
+    "  @1 READ 1";
+    "  @2 CALL _read_array np.dtype('float64')";
+    "  RETURN @2";
+    "PATH COND not @1 == STRING ; COND not @1 == BOOL ; COND not @1 == INT ; COND not @1 == FLOAT ; COND not @1 == INT_ARRAY ; COND not @1 == FLOAT_ARRAY ; COND @1 == DATE";
+    "  @1 READ 1";
+    "  @2 CALL _read_date ";
+    "  RETURN @2";
+    "PATH COND not @1 == STRING ; COND not @1 == BOOL ; COND not @1 == INT ; COND not @1 == FLOAT ; COND not @1 == INT_ARRAY ; COND not @1 == FLOAT_ARRAY ; COND not @1 == DATE ; COND @1 == NONE";
+    "  @1 READ 1";
+    "  RETURN None";
+    "PATH COND not @1 == STRING ; COND not @1 == BOOL ; COND not @1 == INT ; COND not @1 == FLOAT ; COND not @1 == INT_ARRAY ; COND not @1 == FLOAT_ARRAY ; COND not @1 == DATE ; COND not @1 == NONE";
+    "  @1 READ 1";
+    "  RETURN None"])
 ].
